@@ -134,8 +134,17 @@ fn get_superficial_loss_info(
             }
         };
 
-    // This will need to be per affiliate until stock split TXs are global
-    let mut af_split_adjustments = HashMap::<&Affiliate, PosDecimal>::new();
+    // This will need to be per affiliate until stock split TXs are global.
+    // The adjustment is kept as a (numerator, denominator) pair and applied as
+    // shares * numerator / denominator, so that a non-terminating split factor
+    // (eg. 1-for-3) does not round share counts (33 post-split shares must be
+    // exactly 99 pre-split shares, not 99.000..01).
+    let mut af_split_adjustments =
+        HashMap::<&Affiliate, (PosDecimal, PosDecimal)>::new();
+    let apply_split_adjustment =
+        |shares: PosDecimal, adj: &(PosDecimal, PosDecimal)| -> PosDecimal {
+            shares * adj.0 / adj.1
+        };
 
     let mut all_aff_spladj_shares_at_end_of_period =
         all_affiliates_share_balance_after_sell;
@@ -185,17 +194,17 @@ fn get_superficial_loss_info(
             break;
         }
         let after_tx_affil = &after_tx.affiliate;
-        let split_adjustment: PosDecimal = af_split_adjustments
+        let split_adjustment: (PosDecimal, PosDecimal) = af_split_adjustments
             .get(after_tx_affil)
             .map(|v| *v)
-            .unwrap_or(PosDecimal::one());
+            .unwrap_or((PosDecimal::one(), PosDecimal::one()));
 
         // Within the 30 day window after
         match &after_tx.action_specifics {
             TxActionSpecifics::Buy(buy) => {
-                let after_tx_buy_shares = GreaterEqualZeroDecimal::from(buy.shares);
-                let after_tx_buy_spladj_shares =
-                    after_tx_buy_shares * split_adjustment.into();
+                let after_tx_buy_spladj_shares = GreaterEqualZeroDecimal::from(
+                    apply_split_adjustment(buy.shares, &split_adjustment),
+                );
 
                 all_aff_spladj_shares_at_end_of_period += after_tx_buy_spladj_shares;
                 let old_shares_eop = active_affiliate_spladj_shares_at_eop
@@ -212,10 +221,9 @@ fn get_superficial_loss_info(
                 buying_affiliates.insert(after_tx_affil.clone());
             }
             TxActionSpecifics::Sell(sell) => {
-                let after_tx_sell_shares =
-                    GreaterEqualZeroDecimal::from(sell.shares);
-                let after_tx_spladj_sell_shares =
-                    after_tx_sell_shares * split_adjustment.into();
+                let after_tx_spladj_sell_shares = GreaterEqualZeroDecimal::from(
+                    apply_split_adjustment(sell.shares, &split_adjustment),
+                );
 
                 all_aff_spladj_shares_at_end_of_period = GreaterEqualZeroDecimal::try_from(
                     *all_aff_spladj_shares_at_end_of_period - *after_tx_spladj_sell_shares
@@ -241,8 +249,10 @@ fn get_superficial_loss_info(
             }
             TxActionSpecifics::Split(split) => {
                 // Adjustment goes backwards in time for txs after the sale.
-                let new_split_adjustment =
-                    split_adjustment / split.ratio.pre_to_post_factor();
+                let new_split_adjustment = (
+                    split_adjustment.0 * split.ratio.pre_split,
+                    split_adjustment.1 * split.ratio.post_split,
+                );
                 af_split_adjustments.insert(after_tx_affil, new_split_adjustment);
             }
             // These don't change the share quantity, so they can be ignored
@@ -261,7 +271,8 @@ fn get_superficial_loss_info(
         return Ok(MaybeSuperficialLossInfo::NotSuperficial());
     };
 
-    let mut af_split_adjustments = HashMap::<&Affiliate, PosDecimal>::new();
+    let mut af_split_adjustments =
+        HashMap::<&Affiliate, (PosDecimal, PosDecimal)>::new();
 
     // Start just before the sell tx and work backwards
     for i in (0..idx).rev() {
@@ -271,15 +282,16 @@ fn get_superficial_loss_info(
         }
         let before_tx_affil = &before_tx.affiliate;
 
-        let split_adjustment: PosDecimal = af_split_adjustments
+        let split_adjustment: (PosDecimal, PosDecimal) = af_split_adjustments
             .get(before_tx_affil)
             .map(|v| *v)
-            .unwrap_or(PosDecimal::one());
+            .unwrap_or((PosDecimal::one(), PosDecimal::one()));
 
         // Within the 30 day window before
         match &before_tx.action_specifics {
             TxActionSpecifics::Buy(buy) => {
-                let spladj_shares = buy.shares * split_adjustment;
+                let spladj_shares =
+                    apply_split_adjustment(buy.shares, &split_adjustment);
                 total_aquired_spladj_shares_in_period +=
                     GreaterEqualZeroDecimal::from(spladj_shares);
                 buying_affiliates.insert(before_tx_affil.clone());
@@ -297,8 +309,10 @@ fn get_superficial_loss_info(
             }
             TxActionSpecifics::Split(split) => {
                 // Adjustment goes forwards in time for txs before the sale.
-                let new_split_adjustment =
-                    split_adjustment * split.ratio.pre_to_post_factor();
+                let new_split_adjustment = (
+                    split_adjustment.0 * split.ratio.post_split,
+                    split_adjustment.1 * split.ratio.pre_split,
+                );
                 af_split_adjustments.insert(before_tx_affil, new_split_adjustment);
             }
             // ignored
